@@ -98,7 +98,10 @@ WireOK(s, method, w) ==
      ELSE IF ~MayCarryBody(s.status) THEN w.blen = 0
      ELSE IF method = "HEAD" THEN w.blen = 0
      ELSE /\ w.framing \in {"cl", "chunked"}         \* the client can find the end without waiting for close
-          /\ w.blen = (IF ~s.body.present THEN 0 ELSE IF s.body.stream THEN StreamBytes(s.body.len) ELSE s.body.len)
+          \* (a stream: the chunked coding must be well-formed -- w.wf -- and carry at least the message; how an event is framed inside it,
+          \*  `data:` with or without the optional space, is C17's business, not a matter of response well-formedness)
+          /\ IF s.body.present /\ s.body.stream THEN w.blen >= s.body.len
+             ELSE w.blen = (IF ~s.body.present THEN 0 ELSE s.body.len)
           /\ (s.body.present /\ s.body.stream => w.framing = "chunked")
           /\ Count(w.lines, "TE") = (IF w.framing = "chunked" THEN 1 ELSE 0)      \* no stale Transfer-Encoding in front of a plain body
           /\ (w.framing = "cl" => ValueOf(w.lines, "CL") = <<LenTok(w.blen)>>)
